@@ -32,6 +32,10 @@ pub enum Ctl {
     LinkMax { a: Sel, b: Sel, extra: u32 },
     GlobalMax { extra: u32 },
     Curve { x10: u32 },
+    /// per-link override whose value is the THEN-CURRENT global setting
+    /// ("pinning" a link): kind 0 = set_link_latency(global min),
+    /// 1 = set_link_latency(global max), 2 = set_link_max_message_latency(global max)
+    LinkPin { a: Sel, b: Sel, kind: u8 },
 }
 
 #[derive(Clone, Debug, Serialize, Deserialize)]
@@ -292,11 +296,37 @@ fn apply_model(m: &mut Model, c: &Ctl, n: usize) -> Applied {
             }
             Applied::LinkMax(ps, v)
         }
-        Ctl::GlobalMax { extra } => {
-            // only while no link has an override (DESIGN: that interaction is not claimed)
-            if !m.links.is_empty() {
+        Ctl::LinkPin { a, b, kind } => {
+            let ps = pairs(a, b, n);
+            if ps.is_empty() {
                 return Applied::Skip;
             }
+            match kind % 3 {
+                0 | 1 => {
+                    let v = if kind % 3 == 0 { m.global.min } else { m.global.max };
+                    for (x, y) in &ps {
+                        m.links.insert((*x.min(y), *x.max(y)), Lat { min: v, max: v });
+                    }
+                    Applied::LinkLatency(ps, v)
+                }
+                _ => {
+                    let v = m.global.max;
+                    // documented precondition max >= min: not below any selected link's minimum
+                    if ps.iter().any(|(x, y)| m.eff(*x, *y).min > v) {
+                        return Applied::Skip;
+                    }
+                    for (x, y) in &ps {
+                        let cur = m.eff(*x, *y);
+                        m.links.insert((*x.min(y), *x.max(y)), Lat { min: cur.min, max: v });
+                    }
+                    Applied::LinkMax(ps, v)
+                }
+            }
+        }
+        Ctl::GlobalMax { extra } => {
+            // "set the max message latency for all links": the global setting;
+            // a link that has a per-link setting keeps it (per-link takes
+            // precedence over the global one, whichever was made first).
             m.global.max = m.global.min + extra;
             Applied::GlobalMax(m.global.max)
         }
@@ -356,6 +386,10 @@ pub fn run(sc: &Scenario) -> Outcome {
     let mut eff_at: Vec<BTreeMap<(usize, usize), Lat>> = vec![BTreeMap::new()];
     let mut overall_max = model.global.max;
     let mut midrun_override = false;
+    let mut global_changes = 0u32;
+    let mut midrun_global_after_override = false;
+    // global setting in force during step k (to count messages whose per-link window differs from it)
+    let mut global_at: Vec<Lat> = vec![model.global];
     let total_gap: u64 = flows
         .iter()
         .map(|(_, f)| f.sends.iter().map(|(g, _)| *g as u64).sum::<u64>())
@@ -369,7 +403,7 @@ pub fn run(sc: &Scenario) -> Outcome {
                 match apply_model(&mut model, c, n) {
                     Applied::LinkLatency(_, v) => {
                         let (a, b) = match c {
-                            Ctl::LinkLatency { a, b, .. } => (a, b),
+                            Ctl::LinkLatency { a, b, .. } | Ctl::LinkPin { a, b, .. } => (a, b),
                             _ => unreachable!(),
                         };
                         call_sel(&sim, a, b, n, |x, y| sim_set(&sim, x, y, v, false));
@@ -377,10 +411,16 @@ pub fn run(sc: &Scenario) -> Outcome {
                             midrun_override = true;
                         }
                         out.label("link-fixed-override");
+                        if matches!(c, Ctl::LinkPin { .. }) {
+                            out.label("link-pinned-to-current-global-value");
+                        }
+                        if global_changes > 0 {
+                            out.label("link-override-after-global-change");
+                        }
                     }
                     Applied::LinkMax(_, v) => {
                         let (a, b) = match c {
-                            Ctl::LinkMax { a, b, .. } => (a, b),
+                            Ctl::LinkMax { a, b, .. } | Ctl::LinkPin { a, b, .. } => (a, b),
                             _ => unreachable!(),
                         };
                         call_sel(&sim, a, b, n, |x, y| sim_set(&sim, x, y, v, true));
@@ -388,10 +428,23 @@ pub fn run(sc: &Scenario) -> Outcome {
                             midrun_override = true;
                         }
                         out.label("link-max-override");
+                        if matches!(c, Ctl::LinkPin { .. }) {
+                            out.label("link-pinned-to-current-global-value");
+                        }
+                        if global_changes > 0 {
+                            out.label("link-override-after-global-change");
+                        }
                     }
                     Applied::GlobalMax(v) => {
                         sim.set_max_message_latency(Duration::from_millis(v as u64));
                         out.label("global-max-change");
+                        global_changes += 1;
+                        if !model.links.is_empty() {
+                            out.label("global-max-change-after-link-override");
+                            if done_steps > 0 {
+                                midrun_global_after_override = true;
+                            }
+                        }
                     }
                     Applied::Curve(l) => sim.set_message_latency_curve(l),
                     Applied::Skip => {}
@@ -406,6 +459,7 @@ pub fn run(sc: &Scenario) -> Outcome {
             }
         }
         eff_at.push(snap);
+        global_at.push(model.global);
         done_steps += 1;
         sh.step.set(done_steps as u64);
         if let Err(e) = sim.step() {
@@ -449,6 +503,7 @@ pub fn run(sc: &Scenario) -> Outcome {
         }
     }
     let mut fixed_pairs_checked = 0u64;
+    let mut shadowed_msgs = 0u64;
     let mut tcp_deadline: BTreeMap<usize, Duration> = BTreeMap::new();
     let mut last_fixed: BTreeMap<usize, (Lat, usize, u32)> = BTreeMap::new();
     for s in sends.iter() {
@@ -464,6 +519,9 @@ pub fn run(sc: &Scenario) -> Outcome {
         if r.sent_at != s.at {
             out.fail("payload-altered", format!("{s:?} vs {r:?}"));
             return out;
+        }
+        if lat != global_at[s.step as usize] {
+            shadowed_msgs += 1;
         }
         let lo = Duration::from_millis(lat.min as u64).saturating_sub(tick_d);
         let hi = Duration::from_millis(lat.max as u64) + tick_d;
@@ -536,7 +594,11 @@ pub fn run(sc: &Scenario) -> Outcome {
     }
     out.count("messages checked", sends.len() as u64);
     out.count("fixed-latency ordered pairs checked", fixed_pairs_checked);
-    out.nontrivial = !sends.is_empty() && (midrun_override || nondiv || max_burst >= 3);
+    out.count("messages whose per-link window differs from the global one at the send", shadowed_msgs);
+    if midrun_global_after_override {
+        out.label("global-change-mid-run-after-link-override");
+    }
+    out.nontrivial = !sends.is_empty() && (midrun_override || midrun_global_after_override || nondiv || max_burst >= 3);
     out
 }
 
@@ -613,15 +675,17 @@ pub fn strategy() -> BoxedStrategy<Scenario> {
         ),
         proptest::collection::vec(
             (
-                0u32..40,
+                // steps are short runs for coarse ticks: bias towards early instants
+                prop_oneof![2 => 0u32..4, 2 => 0u32..12, 2 => 0u32..40],
                 prop_oneof![
                     3 => (sel_strategy(), sel_strategy(), 0u32..=80).prop_map(|(a, b, v)| Ctl::LinkLatency { a, b, v }),
                     2 => (sel_strategy(), sel_strategy(), 0u32..=60).prop_map(|(a, b, extra)| Ctl::LinkMax { a, b, extra }),
-                    1 => (0u32..=100).prop_map(|extra| Ctl::GlobalMax { extra }),
+                    3 => (sel_strategy(), sel_strategy(), 0u8..3).prop_map(|(a, b, kind)| Ctl::LinkPin { a, b, kind }),
+                    4 => (0u32..=100).prop_map(|extra| Ctl::GlobalMax { extra }),
                     1 => (1u32..=100).prop_map(|x10| Ctl::Curve { x10 }),
                 ],
             ),
-            0..4,
+            0..7,
         ),
     )
         .prop_map(|((tick_ms, (gmin, gmax), lambda_x10, seed, random_order, v6, nhosts), flows, mut ctl)| {
@@ -677,7 +741,7 @@ pub fn fuzz_sanitize(sc: &mut Scenario) -> bool {
             }
         }
     };
-    sc.ctl.truncate(3);
+    sc.ctl.truncate(6);
     for (at, c) in sc.ctl.iter_mut() {
         *at %= 40;
         match c {
@@ -690,6 +754,11 @@ pub fn fuzz_sanitize(sc: &mut Scenario) -> bool {
                 fix_sel(a);
                 fix_sel(b);
                 *extra %= 61;
+            }
+            Ctl::LinkPin { a, b, kind } => {
+                fix_sel(a);
+                fix_sel(b);
+                *kind %= 3;
             }
             Ctl::GlobalMax { extra } => *extra %= 101,
             Ctl::Curve { x10 } => *x10 = 1 + *x10 % 100,
@@ -704,11 +773,12 @@ fn check(tier: Tier, seed: u64) -> i32 {
     ctx.replay_corpus(&replay);
     ctx.random("latency-window", tier.pick(30_000, 400_000), &|| strategy(), &run);
     ctx.finish(
-        "random scenarios: tick 1-20 ms, global min/max latency (fixed or ranged), lambda, 2-4 hosts, 1-4 UDP/TCP flows sending bursts at generated sub-tick instants, per-link fixed/max overrides and global changes applied before and during the run by name, IP or regex. Every message must be received once with min_eff - tick <= receipt - send <= max_eff + tick (setting in force at the send), and consecutive UDP messages of a flow sent under the same fixed latency must arrive in send order. Non-trivial = at least one message and (an override made mid-run, or a tick that does not divide the latency, or a burst >= 3). Distinct by scenario hash.",
+        "random scenarios: tick 1-20 ms, global min/max latency (fixed or ranged), lambda, 2-4 hosts, 1-4 UDP/TCP flows sending bursts at generated sub-tick instants, 0-6 controller actions applied before and during the run in any order: per-link fixed / max-only overrides by name, IP or regex (free values, or pinned to the then-current global min or max), changes of the global maximum (before and after per-link overrides) and of the curve. Model: a link that ever received a per-link setting keeps its own window (fixed: min=max=v; max-only: max=v, min as before) whatever is done to the global setting afterwards, every other link follows the global setting. Every message must be received once with min_eff - tick <= receipt - send <= max_eff + tick (setting in force at the send), and consecutive UDP messages of a flow sent under the same fixed latency must arrive in send order. Non-trivial = at least one message and (an override made mid-run, or a global change made mid-run after a link override, or a tick that does not divide the latency, or a burst >= 3). Distinct by scenario hash.",
         &[
             "receivers block in recv and log their own sim_elapsed; senders log theirs just before the send call",
             "per-link maximum overrides are generated >= the link's current minimum (the Builder documents max >= min as a precondition)",
-            "the global maximum is only changed while no link has an override (interaction not claimed by the property)",
+            "the global minimum cannot be changed after build (no such API), so a max-only per-link override never has to say which minimum it inherits; the curve of an overridden link is not observed (only the window is)",
+            "global maximum changes are generated >= the global minimum; a pin of the maximum only is skipped when a selected link's own minimum exceeds the global maximum",
             "bursts stay far below udp/tcp capacity (64), so no capacity drop or back-pressure interferes",
         ],
     )
